@@ -57,6 +57,13 @@ def gen_tasks(tier, seed, kind="lae"):
             nf = {v: rng.choice((0, 1, 2, 3)) for v in G.nodes()}
             if any(nf.values()):
                 tasks.append({**base, "edges": es, "node_flow": nf, "node_mode": True, "kwargs": {"k": kk, "weight_type": "int", "flow_attr_origin": "node"}})
+                # node-weighted with an additional end / start at an inner node (structured: heavy up to that node, light behind it)
+                for vb in inner[:2]:
+                    anc = nx.ancestors(G, vb) | {vb}
+                    nfs = {v: (5 if v in anc else 1) for v in G.nodes()}
+                    tasks.append({**base, "edges": es, "node_flow": nfs, "node_mode": True, "ends": [vb], "kwargs": {"k": 2, "weight_type": "int", "flow_attr_origin": "node", "additional_ends": [vb]}})
+                    nfs2 = {v: (1 if v in (anc - {vb}) else 5) for v in G.nodes()}
+                    tasks.append({**base, "edges": es, "node_flow": nfs2, "node_mode": True, "starts": [vb], "kwargs": {"k": 2, "weight_type": "int", "flow_attr_origin": "node", "additional_starts": [vb]}})
             # structured weights: one light (zero) edge shared by heavy routes, and one heavy edge among light ones --
             # the optimum then needs an error / explained value well above the largest single weight
             on_routes = {e: sum(1 for r in routes if e in set(zip(r[:-1], r[1:]))) for e in es}
